@@ -187,6 +187,7 @@ Definition sorted_amounts (b : balance) : list amount := fold_right insert_sorte
 
 Definition fill_amounts (bal : value) : res (list amount) :=
   match bal with
+  | VBal [] => Ok [amt_of_Z 0]          (* nothing left to offset: the elided amount is a plain zero *)
   | VBal [a] => Ok [a]
   | VBal b => Ok (sorted_amounts b)
   | VAmt a => Ok [a]
